@@ -43,6 +43,8 @@ pub fn input_real() -> impl Strategy<Value = f64> {
         2 => 0.1f64..2.0,
         1 => (0.0f64..1.0).prop_map(|u| 10f64.powf(-2.0 + 3.0 * u)),
         1 => (-16i32..=16).prop_map(|k| k as f64 / 4.0),
+        // exact special points (shortcuts such as `if x.is_zero()` only show up there)
+        1 => prop_oneof![Just(0.0f64), Just(1.0f64), Just(-1.0f64), Just(2.0f64), Just(0.5f64)],
     ]
 }
 
